@@ -444,7 +444,12 @@ func (f *frame) builtin(b *ssa.Builtin, call *ssa.CallCommon) Val {
 		f.mapDelete(call.Args[0].Type(), asTerm(f.val(call.Args[0])), asTerm(f.val(call.Args[1])))
 		return UnitV{}
 	case "copy":
-		unsupp("builtin copy")
+		dst, ok1 := f.val(call.Args[0]).(SliceV)
+		src, ok2 := f.val(call.Args[1]).(SliceV)
+		if !ok1 || !ok2 {
+			unsupp("copy of %s", call.Args[1].Type())
+		}
+		return f.copySlice(dst, src)
 	case "print", "println":
 		return UnitV{}
 	case "min", "max":
